@@ -137,6 +137,8 @@ type gsxGen struct {
 	n      int
 	impure bool // offer the call f() as an operand
 	used   bool // f() was used
+	// namesake: the impure operand is a call of a user-declared len / cap
+	namesake bool
 }
 
 func (g *gsxGen) name(s string) string { g.n++; return s + strconv.Itoa(g.n) }
@@ -153,12 +155,23 @@ func (g *gsxGen) numExpr(depth int) ast.Expr {
 		if g.impure {
 			nvars = 3
 		}
-		switch gsxrt.Choose(g.name("var"), nvars) {
+		pick := gsxrt.Choose(g.name("var"), nvars)
+		if g.namesake && pick == 0 {
+			pick = 2 // operands: len(x) / cap(x), y, literals
+		}
+		switch pick {
 		case 0:
 			return g.typed(&ast.Ident{Name: "x"}, g.num)
 		case 2:
 			// a call of a function with side effects: f()
 			g.used = true
+			// the callee: f(), or a user-declared function that shares the spelling of a
+			// builtin and is called like it - len(x), cap(x) (Uses says: a func, not the builtin)
+			if g.namesake {
+				id := &ast.Ident{Name: []string{"len", "cap"}[gsxrt.Choose("callee", 2)]}
+				g.info.Uses[id] = types.NewFunc(token.NoPos, nil, id.Name, types.NewSignatureType(nil, nil, nil, types.NewTuple(types.NewVar(token.NoPos, nil, "v", g.num)), types.NewTuple(types.NewVar(token.NoPos, nil, "", g.num)), false))
+				return g.typed(&ast.CallExpr{Fun: id, Args: []ast.Expr{g.typed(&ast.Ident{Name: "x"}, g.num)}}, g.num)
+			}
 			return g.typed(&ast.CallExpr{Fun: &ast.Ident{Name: "f"}}, g.num)
 		}
 		return g.typed(&ast.Ident{Name: "y"}, g.num)
@@ -229,6 +242,14 @@ func gsxC10BoolSimplifyImpure() {
 	gsxC10Bool(3)
 }
 
+// gsxC10BoolSimplifyNamesake: as the impure harness, but the impure operand is a call of
+// a user-declared function named like a builtin (len(x), cap(x)): a purity test that
+// recognises the builtin by spelling would fold two evaluations into one.
+func gsxC10BoolSimplifyNamesake() {
+	gsxrt.Assume(gsxrt.Choose("operandType", 5) == 4)
+	gsxC10Bool(4)
+}
+
 func gsxC10Bool(operandType int) {
 	info := gsxInfo("boolExprSimplify")
 	ctx := linter.NewContext(token.NewFileSet(), types.SizesFor("gc", "amd64"))
@@ -244,6 +265,8 @@ func gsxC10Bool(operandType int) {
 	switch operandType {
 	case 3:
 		g.impure = true
+	case 4:
+		g.impure, g.namesake = true, true
 	case 1:
 		g.num, env.float = types.Typ[types.Float64], true
 	case 2:
